@@ -50,6 +50,8 @@ AAddBase == \E d \in FirstFreeSlot, r \in Slots, b \in Slots, o \in BOOLEAN : Ca
               /\ Act([op |-> "add", d |-> d, r |-> r, b |-> b, o |-> o], DoAddBase(st, d, r, b, o))
 ARemoveBase == \E d \in FirstFreeSlot, s \in Slots, b \in Slots, md \in BOOLEAN : CanRemoveBase(st, d, s, b) /\ s # b
               /\ Act([op |-> "rem", d |-> d, s |-> s, b |-> b, md |-> md], DoRemoveBase(st, d, s, b, md))
+\* (An in-place call that runs out of memory leaves a URI that may only be freed; with the caller's clean-up folded in, that step IS
+\*  AFree for the machine - same successor state - so it needs no action of its own here.  Trace_Session accepts it as such: C14.)
 AFree == \E s \in Slots : CanFree(st, s) /\ Act([op |-> "free", s |-> s], DoFree(st, s))
 AScribble == \E i \in Bufs : CanScribble(st, i) /\ Act([op |-> "scribble", i |-> i], DoScribble(st, i))
 Next == ABuf \/ AParse \/ AMakeOwner \/ ANormalize \/ AAddBase \/ ARemoveBase \/ AFree \/ AScribble
